@@ -73,6 +73,8 @@ func writeEvidence(cfg checkCfg, b *Built, ag *agg, corpus map[string][3]int, si
 		"sim_sync_operations": ag.stats.SyncOps,
 		"starvation_guards":   ag.stats.StarveGuards,
 		"task_stall":          ag.stats.Naps,
+		"channel_operations":  ag.stats.ChanOps,
+		"leaked_library_goroutines": ag.stats.LeakedTasks,
 		"note":                "kinds with 0 sites in the tree under test cannot fire; see seams_rewritten",
 	}
 	samples := []json.RawMessage{}
@@ -136,6 +138,7 @@ func writeEvidence(cfg checkCfg, b *Built, ag *agg, corpus map[string][3]int, si
 				"stubbed_if_used_by_the_tree": map[string]any{
 					"sync -> simsync (Mutex, RWMutex, Once, WaitGroup, Cond, Map.Range order, virtual Pool)": ag.stats.SyncOps,
 					"go statement -> simrt.Go":                         ag.stats.GoSpawns,
+					"channel send/receive/close/range -> simrt virtual channels (select is left real)": ag.stats.ChanOps,
 					"map range -> simrt.MapIter":                       ag.stats.MapPerms,
 					"time.Now/Since/Until/Sleep -> simulated clock":    ag.stats.ClockReads,
 					"math/rand top-level -> run PRNG":                  ag.stats.RandDraws,
